@@ -517,11 +517,11 @@ Section SparseInv.
   Qed.
 
   (* ---- NewSparseFile on what the previous incarnation left behind: every restart the code can perform ---- *)
-  Lemma restart_inv s m : SInv s -> SInv (restart idx s m) \/ Collision H.
+  Lemma restart_gen_inv s m src : SInv s -> SInv (restart_gen idx s m src) \/ Collision H.
   Proof.
     intros [Il Id Is It Ig].
     destruct all_null_zero as [Hz|C]; [|right; exact C]. left.
-    unfold restart. rewrite Lb_eq. fold n.
+    unfold restart_gen. rewrite Lb_eq. fold n.
     set (cache := if s_nofile s then [] else
                   match m_cache m with CKeep => s_file s | CAbsent => [] | CResize k => resize (s_file s) k end).
     assert (Hcache : forall q, nth q cache 0%N = 0%N \/ nth q cache 0%N = nth q (s_file s) 0%N).
@@ -566,13 +566,16 @@ Section SparseInv.
       + intros i r Hn [Hb|Hid]; [rewrite nth_repeat_false in Hb; discriminate|].
         apply (Hnull _ Hl' Hq' i r Hn Hid).
       + intros b Hb i Hi. inversion Hb; subst b. rewrite nth_repeat_false in Hi. discriminate.
-      + destruct (s_saved s) as [b|]; [|constructor].
-        destruct (m_preload m && m_state m && state_matches idx b); [|constructor].
+      + destruct src as [b|]; [|constructor].
+        destruct (m_preload m && state_matches idx b); [|constructor].
         apply Forall_forall. intros th Hin. apply in_map_iff in Hin. destruct Hin as [i [<- Hi]].
         apply filter_In in Hi. destruct Hi as [Hi _]. apply in_seq in Hi.
         apply idle_ok. constructor; [|constructor]. cbn. apply Nat.ltb_lt. fold n. lia.
       + exact Ig.
   Qed.
+
+  Lemma restart_inv s m : SInv s -> SInv (restart idx s m) \/ Collision H.
+  Proof. apply restart_gen_inv. Qed.
 
   Lemma init_inv : SInv (init idx) \/ Collision H.
   Proof.
@@ -590,7 +593,7 @@ Section SparseInv.
   Lemma step_inv s l s' : SInv s -> step idx nullid store s l = Some s' -> SInv s' \/ Collision H.
   Proof.
     intros Hinv E.
-    destruct l as [k|k rq|m|m|]; cbn [step] in E.
+    destruct l as [k|k rq|m|m|m b|]; cbn [step] in E.
     - destruct (s_crashed s); [discriminate|]. exact (tstep_inv s k s' Hinv E).
     - destruct (s_crashed s || negb (valid_request idx rq)) eqn:Ev; [discriminate|].
       apply orb_false_iff in Ev. destruct Ev as [_ Ev]. apply negb_false_iff in Ev.
@@ -605,6 +608,7 @@ Section SparseInv.
       + apply Forall_app. split; [exact It|]. constructor; [|constructor]. apply idle_ok. constructor; [exact Ev|constructor].
     - inversion E; subst s'. apply restart_inv. exact Hinv.
     - inversion E; subst s'. apply restart_inv. exact Hinv.
+    - inversion E; subst s'. apply restart_gen_inv. exact Hinv.
     - inversion E; subst s'. left. destruct Hinv as [Il Id Is It Ig]. constructor; cbn; assumption.
   Qed.
 End SparseInv.
@@ -720,13 +724,15 @@ Section NoPanic.
 
   Lemma step_no_panic s l s' : s_crashed s = false -> step idx nullid store s l = Some s' -> s_crashed s' = false.
   Proof.
-    intros Hc E. destruct l as [k|k rq|m|m|]; cbn [step] in E.
+    intros Hc E. destruct l as [k|k rq|m|m|m b|]; cbn [step] in E.
     - rewrite Hc in E. exact (tstep_no_panic s k s' Hc E).
     - destruct (s_crashed s || negb (valid_request idx rq)); [discriminate|].
       destruct (nth_error (s_threads s) k); inversion E; subst s'; exact Hc.
-    - inversion E; subst s'. unfold restart.
+    - inversion E; subst s'. unfold restart, restart_gen.
       match goal with |- context [if ?c then _ else _] => destruct c end; reflexivity.
-    - inversion E; subst s'. unfold restart.
+    - inversion E; subst s'. unfold restart, restart_gen.
+      match goal with |- context [if ?c then _ else _] => destruct c end; reflexivity.
+    - inversion E; subst s'. unfold restart_gen.
       match goal with |- context [if ?c then _ else _] => destruct c end; reflexivity.
     - inversion E; subst s'. exact Hc.
   Qed.
@@ -877,9 +883,9 @@ Section Retry.
         * apply set_nth_Forall; [exact Rt|exact I].
   Qed.
 
-  Lemma rrestart s m : RInv s -> RInv (restart idx s m).
+  Lemma rrestart_gen s m src : RInv s -> RInv (restart_gen idx s m src).
   Proof.
-    intros [Rd Rs Rt Rl]. unfold restart.
+    intros [Rd Rs Rt Rl]. unfold restart_gen.
     match goal with |- context [if ?c then _ else _] => destruct c eqn:Ec end.
     - constructor; cbn; auto.
       destruct (s_saved s) as [b|]; [|apply andb_true_iff in Ec; destruct Ec; discriminate].
@@ -887,14 +893,17 @@ Section Retry.
     - constructor; cbn; auto.
       + intros i Hi. rewrite nth_repeat_false in Hi. discriminate.
       + intros b Hb i Hi. inversion Hb; subst b. rewrite nth_repeat_false in Hi. discriminate.
-      + destruct (s_saved s) as [b|]; [|constructor].
-        destruct (m_preload m && m_state m && state_matches idx b); [|constructor].
+      + destruct src as [b|]; [|constructor].
+        destruct (m_preload m && state_matches idx b); [|constructor].
         apply Forall_forall. intros th Hin. apply in_map_iff in Hin. destruct Hin as [i [<- _]]. exact I.
   Qed.
 
+  Lemma rrestart s m : RInv s -> RInv (restart idx s m).
+  Proof. apply rrestart_gen. Qed.
+
   Lemma rstep s l s' : RInv s -> step idx nullid store s l = Some s' -> RInv s'.
   Proof.
-    intros Hinv E. destruct l as [k|k rq|m|m|]; cbn [step] in E.
+    intros Hinv E. destruct l as [k|k rq|m|m|m b|]; cbn [step] in E.
     - destruct (s_crashed s); [discriminate|]. exact (rtstep s k s' Hinv E).
     - destruct (s_crashed s || negb (valid_request idx rq)); [discriminate|].
       destruct Hinv as [Rd Rs Rt Rl].
@@ -907,6 +916,7 @@ Section Retry.
       + apply Forall_app. split; [exact Rt|]. constructor; [exact I|constructor].
     - inversion E; subst s'. apply rrestart. exact Hinv.
     - inversion E; subst s'. apply rrestart. exact Hinv.
+    - inversion E; subst s'. apply rrestart_gen. exact Hinv.
     - inversion E; subst s'. destruct Hinv as [Rd Rs Rt Rl]. constructor; cbn; assumption.
   Qed.
 End Retry.
